@@ -290,14 +290,15 @@ func init() {
 		run: genericRun(stagePlan{
 			repo: true,
 			covers: []coverPlan{
-				randCover("lazy", small, rec, 60, 500, 0),
+				randCover("lazy", small, rec, 40, 400, 0),
+				randCover("lazy-after-failures", small, recBoth, 40, 400, 1),
 				structCover("chain", fam.Chain, rec, false, 60, 500, 2, 0),
 				wideCover("chain", fam.Chain, rec, false, 250, 0),
 				structCover("groups", fam.Groups, rec, false, 15, 40, 2, 0),
 				wideCover("groups", fam.Groups, rec, false, 60, 0),
 				wideCover("reenter", fam.Reenter, rec, false, 40, 0),
 			},
-			traces: stdTraces("lazy", medium, 0, stdOpts)})})
+			traces: stdTraces("lazy", medium, 0.06, stdOpts)})})
 
 	register(&propDef{id: "C04",
 		projection: "verdict class of Invoke (missing versus ok), the reported missing keys, zero versus value for optional parameters, executions past a known gap",
